@@ -20,6 +20,9 @@ import (
 type CertSet struct {
 	RSA   tls.Certificate
 	ECDSA tls.Certificate
+	// PEM encodings (certificate, key)
+	RSACertPEM, RSAKeyPEM     []byte
+	ECDSACertPEM, ECDSAKeyPEM []byte
 }
 
 var (
@@ -32,11 +35,11 @@ func Certs() *CertSet {
 	certOnce.Do(func() {
 		certSet = &CertSet{}
 		rk, _ := rsa.GenerateKey(rand.Reader, 2048)
-		c, _, _ := SelfSigned(rk, big.NewInt(1001), "verif-rsa")
-		certSet.RSA = c
+		c, cp, kp := SelfSigned(rk, big.NewInt(1001), "verif-rsa")
+		certSet.RSA, certSet.RSACertPEM, certSet.RSAKeyPEM = c, cp, kp
 		ek, _ := ecdsa.GenerateKey(elliptic.P256(), rand.Reader)
-		c2, _, _ := SelfSigned(ek, big.NewInt(1002), "verif-ecdsa")
-		certSet.ECDSA = c2
+		c2, cp2, kp2 := SelfSigned(ek, big.NewInt(1002), "verif-ecdsa")
+		certSet.ECDSA, certSet.ECDSACertPEM, certSet.ECDSAKeyPEM = c2, cp2, kp2
 	})
 	return certSet
 }
